@@ -7,9 +7,10 @@
 
     src/server.rs  TRACKED_PARAMETERS                       = [TRACKED]
     src/server.rs  ServerParameters::new                    = [sp_new] (five defaults)
-    src/server.rs  ServerParameters::set_param              = [set_param]: "timezone" -> "TimeZone",
-                     "datestyle" -> "DateStyle" (only these two spellings are re-cased), then
-                     insert iff the key is tracked or [startup]
+    src/server.rs  ServerParameters::set_param              = [set_param]: a key that equals a tracked
+                     name ignoring ASCII case is replaced by that name (repair 68af9b4 of D2; before
+                     it only "timezone"/"datestyle" were re-cased = [old_recase]), then insert iff
+                     the key is tracked or [startup]
     src/server.rs  ServerParameters::set_from_hashmap       = [set_from_list] (HashMap order is
                      unspecified; the model folds in list order, which is the same map whenever no
                      two startup keys re-case to the same key)
@@ -33,10 +34,12 @@
                      "RESET ROLE;[RESET ALL;]" if needs_cleanup (cleanup_server_connections = true)
     src/server.rs  Server::is_unclean + src/pool.rs has_broken = [is_unclean] (repair of F1); the
                      model is parametric in [hb] so that the dependency on it is explicit
-    src/messages.rs parse_params (via parse_startup)         = [startup_decode]: every BYTE is pushed
-                     as a [char] ([tmp.push(c as char)], i.e. Latin-1 -> UTF-8), EMPTY strings are
-                     skipped ([if !tmp.is_empty()]), the remaining strings are paired up; an odd
-                     count, fewer than two strings or no "user" key => the connection is refused
+    src/messages.rs parse_params (via parse_startup)         = [startup_decode] (repair 5c1953d of
+                     D1/D3): name/value C strings in order, UTF-8 (from_utf8_lossy: the identity on the
+                     valid UTF-8 the model ranges over), a value may be empty, the list ends at an
+                     empty NAME; no pair or no "user" key => the connection is refused.  The code
+                     before the repair (every byte pushed as a char = Latin-1 -> UTF-8, empty
+                     strings skipped, the rest paired up) is kept as [old_startup_decode].
     src/client.rs  startup (~742-751)                        = [OConnect]: clone of the pool's map
                      ([pool] = the map of the first validated server connection), overlaid with
                      the client's startup parameters [set_from_hashmap(&parameters, false)], then
@@ -105,7 +108,18 @@ Definition tracked (k : bytes) : bool := existsb (beq k) TRACKED.
 Definition REPORTED : list bytes := TRACKED ++ [K_interval].
 
 (** ** ServerParameters (server.rs) *)
+Definition lower (s : bytes) : bytes :=
+  map (fun c => if (65 <=? c) && (c <=? 90) then c + 32 else c) s.
+
+(** the tracked name that equals [k] ignoring ASCII case (PostgreSQL resolves GUC names that way) *)
+Definition canon_tracked (k : bytes) : option bytes :=
+  find (fun t => beq (lower t) (lower k)) TRACKED.
+
 Definition recase (k : bytes) : bytes :=
+  match canon_tracked k with Some K => K | None => k end.
+
+(** before repair 68af9b4 *)
+Definition old_recase (k : bytes) : bytes :=
   if beq k k_timezone then K_tz else if beq k k_datestyle then K_date else k.
 
 Definition set_param (m : pmap) (k v : bytes) (startup : bool) : pmap :=
@@ -125,6 +139,19 @@ Definition compare_params (self incoming : pmap) : list (bytes * bytes) :=
     end) TRACKED.
 
 (** ** Startup packet decoding (messages.rs parse_params) *)
+Fixpoint take_pairs (raw : list (bytes * bytes)) : list (bytes * bytes) :=
+  match raw with
+  | [] => []
+  | (k, v) :: r => if is_nil k then [] else (k, v) :: take_pairs r
+  end.
+
+Definition startup_decode (raw : list (bytes * bytes)) : option (list (bytes * bytes)) :=
+  match take_pairs raw with
+  | [] => None
+  | ps => if existsb (fun kv => beq (fst kv) k_user) ps then Some ps else None
+  end.
+
+(** before repair 5c1953d *)
 Definition latin1_utf8 (s : bytes) : bytes :=
   flat_map (fun b => if b <? 128 then [b] else [192 + b / 64; 128 + b mod 64]) s.
 
@@ -135,7 +162,7 @@ Fixpoint pair_up (l : list bytes) : option (list (bytes * bytes)) :=
   | _ => None
   end.
 
-Definition startup_decode (raw : list (bytes * bytes)) : option (list (bytes * bytes)) :=
+Definition old_startup_decode (raw : list (bytes * bytes)) : option (list (bytes * bytes)) :=
   let strs := filter (fun s => negb (is_nil s))
                      (map latin1_utf8 (flat_map (fun kv => [fst kv; snd kv]) raw)) in
   if (List.length strs <? 2)%nat then None else
@@ -144,30 +171,13 @@ Definition startup_decode (raw : list (bytes * bytes)) : option (list (bytes * b
   | None => None
   end.
 
-(** ** Specification side: what the client established *)
-Definition lower (s : bytes) : bytes :=
-  map (fun c => if (65 <=? c) && (c <=? 90) then c + 32 else c) s.
-
-(** PostgreSQL resolves GUC names case-insensitively *)
-Definition canon_tracked (k : bytes) : option bytes :=
-  find (fun t => beq (lower t) (lower k)) TRACKED.
-
+(** ** Specification side: what the client established with its startup packet: the pairs up to
+    the terminating empty name, names resolved ignoring case, over the pool's values *)
 Definition est_startup (pool : pmap) (raw : list (bytes * bytes)) : pmap :=
   fold_left (fun m kv => match canon_tracked (fst kv) with
                          | Some K => pset K (snd kv) m
                          | None => m
-                         end) raw pool.
-
-Definition ascii_nonempty (s : bytes) : bool := negb (is_nil s) && forallb (fun b => b <? 128) s.
-
-Definition key_ok (k : bytes) : bool :=
-  match canon_tracked k with Some K => beq (recase k) K | None => true end.
-
-(** guard of the startup findings: no empty string, ASCII only, tracked keys spelled the way
-    pgcat knows them, a "user" entry *)
-Definition startup_ok (raw : list (bytes * bytes)) : bool :=
-  forallb (fun kv => ascii_nonempty (fst kv) && ascii_nonempty (snd kv) && key_ok (fst kv)) raw
-  && existsb (fun kv => beq (fst kv) k_user) raw.
+                         end) (take_pairs raw) pool.
 
 (** ** Backend *)
 Inductive txn := TI | TT | TE.
@@ -490,8 +500,6 @@ Section Params.
   Definition startup_valid (ops : list op) : bool :=
     forallb (fun o => match o with OConnect _ raw => connect_valid raw | _ => true end) ops.
 
-  Definition startups_ok (ops : list op) : bool :=
-    forallb (fun o => match o with OConnect _ raw => startup_ok raw | _ => true end) ops.
 End Params.
 
 (** ** Concrete instances (the mock backend of the wire harness) *)
